@@ -4,6 +4,9 @@ Implementation under test (real code, in-process):
   A. FlowIRConcrete(doc, 'default', {}).get_status()            -> loaded stage weights
   B. StatusMonitor(experiment).stageWeights + the real CheckStatus closure of StatusMonitor.run
      driven once with a fake controller                         -> weights used for reporting, total progress
+  C. a real Controller (deterministic runtime harness/detsim.py) on a generated package with DoWhile documents:
+     Controller.get_stage_status / get_stages_in_transit / get_stages_finished / finishedCheck /
+     _instantiate_next_dowhile_iteration + the real CheckStatus   -> per-stage progress and total along histories
 Model: lean/St4sd/Model/Weights.lean via drv-c20.  Theorems: lean/St4sd/Props/C20.lean.
 """
 from __future__ import annotations
@@ -25,10 +28,28 @@ def _imports():
     return F
 
 
-def doc_for(ws):
+# what the status-report holds for a stage that gives no weight ("missing": true, "entry": <flavour>); no "entry" key =
+# the stage has no status-report entry at all
+ENTRY_FLAVOURS = {"empty": {}, "args": {"arguments": "-l"}, "refs": {"references": []},
+                  "args+refs": {"arguments": "--all", "references": []}}
+
+
+def doc_for(ws, spec=None):
     comps = [{'name': 'c%d' % i, 'stage': i, 'command': {'executable': 'ls'}} for i in range(len(ws))]
     st = {i: {'stage-weight': w} for i, w in enumerate(ws) if w is not None}
+    for i, e in enumerate(spec or []):
+        if e.get("missing") and e.get("entry") is not None:
+            st[i] = dict(ENTRY_FLAVOURS[e["entry"]])
     return {'components': comps, 'status-report': st}
+
+
+def given_of(spec):
+    """the package's weights as the model sees them: units, or None for a stage that gives none; None when some
+    entry is not finite"""
+    us = units_of(spec)
+    if us is None:
+        return None
+    return [None if e.get("missing") else u for e, u in zip(spec, us)]
 
 
 def to_py(spec):
@@ -70,8 +91,14 @@ def units_of(spec):
 def impl_loader(spec):
     F = _imports()
     try:
-        c = F.FlowIRConcrete(doc_for(to_py(spec)), 'default', {})
+        c = F.FlowIRConcrete(doc_for(to_py(spec), spec), 'default', {})
         st = c.get_status()
+    except Exception as exc:  # noqa
+        return {"error": type(exc).__name__}
+    lacking = [i for i in range(len(spec)) if not isinstance(st.get(i), dict) or 'stage-weight' not in st[i]]
+    if lacking:
+        return {"no_weight_for_stages": lacking[:20]}
+    try:
         ws = [float(st[i]['stage-weight']) for i in range(len(spec))]
         return {"weights": [int(round(w * UNIT)) for w in ws], "floats": ws}
     except Exception as exc:  # noqa
@@ -92,7 +119,12 @@ def partition(rng, total, n):
 
 def gen_spec(rng, n, kinds=None):
     kind = rng.choice(kinds or ["proper", "proper", "proper3", "near_in", "near_out", "negative", "trunc1000", "random",
-                                "missing", "malformed", "gt1", "zeros", "strings"])
+                                "missing", "malformed", "gt1", "zeros", "strings", "proper_missing", "proper_missing"])
+    if kind == "proper_missing":
+        # the weights the package GIVES sum to one; the other stages have no entry / an entry without stage-weight
+        n_given = rng.randint(1, max(1, n - 1))
+        given = sorted(rng.sample(range(n), n_given))
+        return kind, proper_with_missing(rng, n, given, rng.choice([1, 2, 3, 6, 9]))
     decimals = rng.choice([1, 2, 3, 4, 5, 6, 9])
     scale = 10 ** decimals
     step = UNIT // scale
@@ -141,6 +173,9 @@ def gen_spec(rng, n, kinds=None):
         for e in rng.sample(spec, rng.randint(1, n)):
             e.clear()
             e["missing"] = True
+            fl = rng.choice([None, None] + sorted(ENTRY_FLAVOURS))
+            if fl is not None:
+                e["entry"] = fl
     if kind == "malformed":
         for e in rng.sample(spec, rng.randint(1, n)):
             e.clear()
@@ -152,6 +187,42 @@ def gen_spec(rng, n, kinds=None):
     return kind, spec
 
 
+def proper_with_missing(rng, n, given, decimals, flavour=None):
+    """n stages; the stages in `given` carry weights that sum to one (multiples of 10^-decimals, zero allowed), every
+    other stage gives no weight (`flavour`: None = random, "" = no entry, else a key of ENTRY_FLAVOURS)"""
+    scale = 10 ** decimals
+    parts = partition(rng, scale, len(given))
+    spec = []
+    for i in range(n):
+        if i in given:
+            spec.append({"u": parts[given.index(i)] * (UNIT // scale)})
+        else:
+            e = {"missing": True}
+            fl = flavour if flavour is not None else rng.choice(["", ""] + sorted(ENTRY_FLAVOURS))
+            if fl:
+                e["entry"] = fl
+            spec.append(e)
+    return spec
+
+
+def missing_combinations(rng, n, flavours):
+    """every assignment given / missing (in each flavour) to n stages with at least one given stage"""
+    import itertools
+    out = []
+    for mask in itertools.product(["given"] + list(flavours), repeat=n):
+        given = [i for i, m in enumerate(mask) if m == "given"]
+        if not given or len(given) == n:
+            continue
+        spec = proper_with_missing(rng, n, given, 3)
+        for i, m in enumerate(mask):
+            if m != "given":
+                spec[i] = {"missing": True}
+                if m:
+                    spec[i]["entry"] = m
+        out.append(("proper_missing_all", spec))
+    return out
+
+
 # ----------------------------------------------------------------------------------------
 # oracle (model independent restatement of the property)
 # ----------------------------------------------------------------------------------------
@@ -160,6 +231,8 @@ def oracle_weights(spec, out):
     """returns None or a description of the failure"""
     if "error" in out:
         return "loader-raises-" + out["error"]
+    if "no_weight_for_stages" in out:
+        return "loaded-status-report-has-no-weight-for-a-stage"
     ws = out["floats"]
     if any(not (w >= 0.0) for w in ws):
         return "negative-weight-loaded"
@@ -336,7 +409,7 @@ class ScriptedController:
 
 def flowir_yaml(spec):
     import yaml
-    d = doc_for(to_py(spec))
+    d = doc_for(to_py(spec), spec)
     return yaml.safe_dump(d)
 
 
@@ -440,14 +513,449 @@ def model_check_request(sc, run, ws):
 
 # ----------------------------------------------------------------------------------------
 
+# ----------------------------------------------------------------------------------------
+# Real Controller part: per-stage progress from the controller's own component bookkeeping
+# ----------------------------------------------------------------------------------------
+#
+# case = {"kind", "spec": stage-weight spec (one entry per stage), "stages": [{"static": s, "loop": l}], "start": k0,
+#         "ops": [...]}.  Stage k has s ordinary components `stage<k>.s<j>` and, when l > 0, imports a DoWhile document
+# `dw` of l components `l0 … l<l-1>` (condition = l0/next.txt:output); iteration i of it is `stage<k>.<i>#l<j>`.
+# ops: ["q"]                 ask the real Controller.get_stage_status for every stage, run the real CheckStatus once
+#      ["done", ref]         the task of `ref` exits with success and the component reaches FINISHED (ComponentState.finish)
+#      ["fc", ref, cond]     the real Controller.finishedCheck is delivered for `ref`; when `ref` produces the current
+#                            condition of its DoWhile the file next.txt holds `cond` ("True": the real
+#                            _handle_condition_component_finished instantiates the next iteration)
+#      ["adv", k]            Controller._instantiate_next_dowhile_iteration for the document of stage k
+#      ["next"]              the stage loop moves on: Experiment.incrementStage + Controller.initialise(next stage)
+
+def ctl_refs(k, st, iterations):
+    out = ["stage%d.s%d" % (k, j) for j in range(st["static"])]
+    for i in range(iterations):
+        out += ["stage%d.%d#l%d" % (k, i, j) for j in range(st["loop"])]
+    return out
+
+
+class CtlSim:
+    """What the case says happens (pure bookkeeping, independent of the real code and of the Lean model)."""
+
+    def __init__(self, case):
+        self.stages = case["stages"]
+        self.start = int(case.get("start", 0))
+        self.cur = self.start
+        self.iters = [1 if st["loop"] else 0 for st in self.stages]
+        self.pop = [ctl_refs(k, st, self.iters[k]) for k, st in enumerate(self.stages)]
+        self.done = set()
+        self.delivered = set()
+        for k in range(self.start):          # the earlier run of a restarted experiment completed these stages
+            self.done.update(self.pop[k])
+            self.delivered.update(self.pop[k])
+
+    def stage_of(self, ref):
+        return int(ref.split(".")[0][5:])
+
+    def cond_ref(self, k):
+        return "stage%d.%d#l0" % (k, self.iters[k] - 1) if self.stages[k]["loop"] else None
+
+    def grow(self, k):
+        i = self.iters[k]
+        self.iters[k] += 1
+        self.pop[k] += ["stage%d.%d#l%d" % (k, i, j) for j in range(self.stages[k]["loop"])]
+
+    def valid(self, op):
+        kind = op[0]
+        if kind == "q":
+            return True
+        if kind == "done":
+            return op[1] in self.pop[self.stage_of(op[1])] and op[1] not in self.done
+        if kind == "fc":
+            return op[1] in self.done and op[1] not in self.delivered
+        if kind == "adv":
+            k = op[1]
+            return self.start <= k < len(self.stages) and self.stages[k]["loop"] > 0 and self.cond_ref(k) not in self.delivered
+        if kind == "next":
+            return self.cur + 1 < len(self.stages) and all(r in self.delivered for r in self.pop[self.cur])
+        return False
+
+    def apply(self, op):
+        """returns the model-level operations [["fin", k, i] | ["grow", k, m] | ["q"]]"""
+        kind = op[0]
+        if kind == "q":
+            return [["q"]]
+        if kind == "done":
+            k = self.stage_of(op[1])
+            self.done.add(op[1])
+            return [["fin", k, self.pop[k].index(op[1])]]
+        if kind == "fc":
+            k = self.stage_of(op[1])
+            grew = op[1] == self.cond_ref(k) and str(op[2]).strip().lower() == "true"
+            self.delivered.add(op[1])
+            if grew:
+                self.grow(k)
+                return [["grow", k, self.stages[k]["loop"]]]
+            return []
+        if kind == "adv":
+            self.grow(op[1])
+            return [["grow", op[1], self.stages[op[1]]["loop"]]]
+        if kind == "next":
+            self.cur += 1
+            return []
+        raise ValueError(op)
+
+    def fractions(self):
+        return [[sum(1 for r in p if r in self.done), len(p)] for p in self.pop]
+
+
+def gen_ctl_case(rng, kind=None):
+    n = rng.choice([1, 2, 2, 3, 3, 4])
+    stages = []
+    for k in range(n):
+        loop = rng.choice([0, 0, 1, 1, 2, 3])
+        static = rng.randint(0 if loop else 1, 3)
+        stages.append({"static": static, "loop": loop})
+    if not any(st["loop"] for st in stages):
+        stages[rng.randrange(n)]["loop"] = rng.choice([1, 2])
+    start = 0
+    if n >= 2 and rng.random() < 0.2:
+        start = rng.randint(1, n - 1)
+        for k in range(start):          # finished stages of the earlier run: keep them free of loops
+            stages[k] = {"static": max(1, stages[k]["static"]), "loop": 0}
+        if not any(st["loop"] for st in stages):
+            stages[start]["loop"] = 1
+    wkind = rng.choice(["proper3", "proper3", "proper", "proper_missing", "random", "missing"])
+    _, spec = gen_spec(rng, n, kinds=[wkind])
+    case = {"kind": "ctl:" + wkind, "spec": spec, "stages": stages, "start": start, "ops": []}
+    sim = CtlSim(case)
+    max_iter = rng.choice([2, 3, 3, 4])
+    ops = []
+    if rng.random() < 0.8:
+        ops.append(["q"])            # somebody asks before anything happened (the first tick of the status monitor)
+    finish_all = rng.random() < 0.6
+    for _ in range(rng.randint(4, 40)):
+        cands = []
+        undone = [r for k in range(start, n) for r in sim.pop[k] if r not in sim.done]
+        # prefer the current stage, but later stages run ahead as well
+        pref = [r for r in undone if sim.stage_of(r) <= sim.cur] or undone
+        pend = sorted(r for r in sim.done if r not in sim.delivered)
+        r_ = rng.random()
+        if r_ < 0.25:
+            op = ["q"]
+        elif r_ < 0.75 and undone:
+            ref = rng.choice(pref if rng.random() < 0.7 else undone)
+            op = ["done", ref]
+        elif r_ < 0.93 and pend:
+            op = ["fc", rng.choice(pend), None]
+        elif r_ < 0.96:
+            op = ["adv", rng.randrange(n)]
+        else:
+            op = ["next"]
+        if not sim.valid(op):
+            continue
+        both = op[0] == "done" and rng.random() < 0.6
+        for o in ([op, ["fc", op[1], None]] if both else [op]):
+            if o[0] == "fc":
+                k = sim.stage_of(o[1])
+                if o[1] == sim.cond_ref(k):
+                    o[2] = "True" if (sim.iters[k] < max_iter and rng.random() < 0.7) else "False"
+            ops.append(o)
+            sim.apply(o)
+            if o[0] == "fc" and o[2] == "True" and rng.random() < 0.6:
+                ops.append(["q"])
+                sim.apply(["q"])
+    if finish_all:
+        # everything completes: every component finishes, every notification is delivered, the stage loop ends
+        guard = 0
+        while guard < 200:
+            guard += 1
+            undone = [r for k in range(start, n) for r in sim.pop[k] if r not in sim.done]
+            pend = sorted(r for r in sim.done if r not in sim.delivered)
+            if pend:
+                ref = pend[0]
+                k = sim.stage_of(ref)
+                o = ["fc", ref, "False" if ref == sim.cond_ref(k) else None]
+            elif undone:
+                o = ["done", undone[0]]
+            elif sim.valid(["next"]):
+                o = ["next"]
+            else:
+                break
+            ops.append(o)
+            sim.apply(o)
+            if rng.random() < 0.15:
+                ops.append(["q"])
+    ops.append(["q"])
+    case["ops"] = ops
+    return case
+
+
+def ctl_package(case):
+    import yaml
+    cmd = {"executable": "echo", "arguments": "x"}
+    comps, extra = [], {}
+    for k, st in enumerate(case["stages"]):
+        for j in range(st["static"]):
+            comps.append({"name": "s%d" % j, "stage": k, "command": dict(cmd)})
+        if st["loop"]:
+            dw = {"type": "DoWhile", "inputBindings": {}, "loopBindings": {}, "condition": "l0/next.txt:output",
+                  "components": [{"name": "l%d" % j, "command": dict(cmd)} for j in range(st["loop"])]}
+            extra["conf/dw%d.yaml" % k] = yaml.safe_dump(dw)
+            comps.append({"name": "dw", "stage": k, "$import": "dw%d.yaml" % k, "bindings": {}})
+    d = doc_for(to_py(case["spec"]), case["spec"])
+    d["components"] = comps
+    return yaml.safe_dump(d), extra
+
+
+def impl_ctl(case, tmp):
+    """Real Experiment + real Controller (deterministic runtime harness/detsim.py: fake engines, no threads) + real
+    StatusMonitor; returns {"queries": [...]} (one entry per ["q"]) or {"error": ...}"""
+    from harness import detsim
+    env = detsim.install()
+    import tests.utils as TU
+    import experiment.model.codes as codes
+    import experiment.runtime.output as O
+    import experiment.runtime.monitor as M
+    main, extra = ctl_package(case)
+    cwd = os.getcwd()
+    n_int, n_eng = len(env["intervals"]), len(env["ENGINES"])
+    exp = None
+    queries = []
+    orig = M.CreateMonitor
+    where = "load"
+    try:
+        try:
+            exp = TU.experiment_from_flowir(main, tmp, extra_files=extra, checkExecutables=False)
+        except Exception as exc:  # noqa
+            return {"error": "load:" + type(exc).__name__, "msg": str(exc)[-800:]}
+        try:
+            where = "controller"
+            start = int(case.get("start", 0))
+            n = len(case["stages"])
+            ctl, _ = TU.new_controller(exp, initial_stage=start)
+            status = detsim.FakeStatus()
+            ctl.initialise(exp._stages[start], status)
+            for _ in range(start):
+                exp.incrementStage()
+            where = "monitor"
+            mon = O.StatusMonitor(exp, report_components=False)
+            captured = {}
+
+            def fake_create(interval, action, cancelEvent=None, name=None, **kw):
+                captured["action"] = action
+                return lambda: None
+            M.CreateMonitor = fake_create
+            wg = exp.experimentGraph
+            weights = [float(w) for w in mon.stageWeights]
+            for op in case["ops"]:
+                where = "op:" + op[0]
+                if op[0] == "q":
+                    ps = [ctl.get_stage_status(k) for k in range(n)]
+                    pops = [0] * n
+                    for _, data in wg.graph.nodes(data=True):
+                        pops[data["stageIndex"]] += 1
+                    mon.run(ctl)
+                    captured["action"](False)
+                    queries.append({"p": [None if v is None else float(v) for v in ps], "graph_pop": pops,
+                                    "total": float(exp.statusFile.totalProgress()),
+                                    "cur": int(ctl.currentStage.index),
+                                    "transit": list(ctl.get_stages_in_transit()),
+                                    "finished": list(ctl.get_stages_finished())})
+                elif op[0] == "done":
+                    comp = ctl.get_compstate(op[1])
+                    eng = comp.engine
+                    if not eng.started:
+                        eng.run()
+                    eng.die("Success")
+                    comp.finish(codes.FINISHED_STATE)
+                elif op[0] == "fc":
+                    comp = ctl.get_compstate(op[1])
+                    if op[2] is not None:
+                        job = exp.getStage(comp.stageIndex).jobWithName(comp.specification.identification.componentName)
+                        with open(os.path.join(job.directory, "next.txt"), "w") as f:
+                            f.write(str(op[2]) + "\n")
+                    ctl.finishedCheck(comp.state, comp)
+                elif op[0] == "adv":
+                    node = wg.get_document_metadata("DoWhile", "stage%d.dw" % op[1])
+                    ctl._instantiate_next_dowhile_iteration(node)
+                elif op[0] == "next":
+                    exp.incrementStage()
+                    ctl.initialise(exp._stages[int(ctl.currentStage.index) + 1], status)
+                else:
+                    raise ValueError("unknown op %r" % (op,))
+            return {"queries": queries, "weights": weights,
+                    "stageWeights": [int(round(w * UNIT)) for w in weights]}
+        except Exception as exc:  # noqa
+            import traceback
+            return {"error": "%s:%s" % (where, type(exc).__name__), "msg": traceback.format_exc()[-1200:],
+                    "queries": queries}
+    finally:
+        M.CreateMonitor = orig
+        os.chdir(cwd)
+        for _, sub in env["intervals"][n_int:]:
+            try:
+                sub.on_completed()
+            except Exception:
+                pass
+        del env["intervals"][n_int:]
+        del env["ENGINES"][n_eng:]
+        try:
+            shutil.rmtree(exp.instanceDirectory.location, ignore_errors=True)  # noqa
+        except Exception:
+            pass
+
+
+def as_fraction(v):
+    """a float that is a ratio of small counts -> [numerator, denominator] in lowest terms"""
+    f = Fraction(v).limit_denominator(10 ** 6)
+    return [f.numerator, f.denominator]
+
+
+def check_ctl_cases(ctx, cases):
+    tmp = tempfile.mkdtemp(prefix="c20ctl-")
+    try:
+        for case in cases:
+            sim = CtlSim(case)
+            mops, expect = [], []
+            ok = True
+            for op in case["ops"]:
+                if not sim.valid(op):
+                    ok = False
+                    break
+                mops += sim.apply(op)
+                if op[0] == "q":
+                    expect.append({"fr": sim.fractions(), "cur": sim.cur,
+                                   "complete": all(r in sim.done for p in sim.pop for r in p)})
+            if not ok:
+                ctx.tag("ctl:case-with-an-operation-that-cannot-happen-skipped")
+                continue
+            out = impl_ctl(case, tmp)
+            n = len(case["stages"])
+            grows = sum(1 for o in mops if o[0] == "grow")
+            ctx.case(case, nontrivial=grows >= 1 and len(expect) >= 2,
+                     tags=["ctl:stages:%d" % n, "ctl:restart" if case.get("start") else "ctl:from-stage-0",
+                           "ctl:population-growths:%d" % min(grows, 4)])
+            if out.get("error", "").startswith("load:ExperimentInvalidConfigurationError"):
+                ctx.tag("ctl:package-rejected-as-invalid")
+                continue
+            if "error" in out:
+                report(ctx, "controller-history-raises-" + out["error"].split(":")[-1], case, out)
+                continue
+            start = int(case.get("start", 0))
+            seen_growth_after_query = False
+            for qi, (q, ex) in enumerate(zip(out["queries"], expect)):
+                upto = 0
+                cnt = -1
+                for oi, op in enumerate(case["ops"]):
+                    if op[0] == "q":
+                        cnt += 1
+                        if cnt == qi:
+                            upto = oi + 1
+                            break
+                case1 = dict(case, ops=case["ops"][:upto])
+                for k in range(start, n):
+                    v = q["p"][k]
+                    f, p = ex["fr"][k]
+                    if v is None:
+                        continue
+                    if not (0.0 <= v <= 1.0):
+                        report(ctx, "stage-progress-outside-unit-interval", case1,
+                                 {"stage": k, "progress": v, "finished_components": f, "components_of_the_stage_now": p})
+                    elif f == p and v != 1.0:
+                        report(ctx, "stage-progress-not-one-when-stage-complete", case1,
+                                 {"stage": k, "progress": v, "finished_components": f, "components_of_the_stage_now": p})
+                    elif p and abs(v - f / float(p)) > 1e-12:
+                        # the per-stage progress of a stage without status script IS the finished fraction of the
+                        # components the stage has now (Controller.get_stage_status)
+                        report(ctx, "stage-progress-is-not-the-finished-fraction-of-the-current-population", case1,
+                                 {"stage": k, "progress": v, "finished_components": f, "components_of_the_stage_now": p})
+                if not (-1e-12 <= q["total"] <= 1.0 + 1e-6 + 1e-9):
+                    report(ctx, "total-progress-outside-unit-interval", case1, {"total": q["total"], "stage_progress": q["p"]})
+                if ex["complete"]:
+                    ctx.tag("ctl:query-when-complete")
+                    if abs(q["total"] - 1.0) > 1e-6 + 1e-9:
+                        report(ctx, "total-progress-not-one-when-complete", case1, {"total": q["total"], "stage_progress": q["p"]})
+                if q["graph_pop"] != [p for _, p in ex["fr"]]:
+                    ctx.tag("ctl:graph-population-differs-from-the-case")    # C05's subject; reported as a disagreement below
+            ctx.tag("ctl:queries", len(out["queries"]))
+            # model: Weights.run / queryStage / totalOfStages on the same history
+            gs = given_of(case["spec"])
+            if ctx.driver is None or gs is None:
+                continue
+            us = [0 if g is None else g for g in gs]
+            mo = ctx.model([{"op": "stagehist", "stages": [len(ctl_refs(k, st, 1 if st["loop"] else 0))
+                                                             for k, st in enumerate(case["stages"])],
+                             "ws": us,
+                             "ops": [["fin", k, i] for k in range(start) for i in range(case["stages"][k]["static"])] + mops}])[0]
+            ctx.compare("Controller histories: StatusMonitor.stageWeights == Weights.normalize", case,
+                        {"weights": mo["weights"]}, {"weights": out["stageWeights"]})
+            m_out, i_out = [], []
+            for q, mq, ex in zip(out["queries"], mo["queries"], expect):
+                mfr = [as_fraction(Fraction(f, p)) if p else None for f, p in mq["stages"]]
+                ifr = [None if v is None else as_fraction(v) for v in q["p"]]
+                for k in range(start):       # stages of the earlier run: unknown to this controller, counted as complete
+                    mfr[k] = ifr[k] = "earlier-run"
+                exact = Fraction(mq["total"], mq["D"] * UNIT) if mq["D"] else None
+                agree = exact is not None and abs(Fraction(q["total"]) - exact) < Fraction(1, 10 ** 9)
+                m_out.append({"stage_progress": mfr, "population": [p for _, p in mq["stages"]], "total_agrees": True})
+                i_out.append({"stage_progress": ifr, "population": q["graph_pop"],
+                              "total_agrees": True if agree else {"impl_total": q["total"], "model_total": float(exact) if exact is not None else None}})
+                if [[f, p] for f, p in mq["stages"]] != ex["fr"]:
+                    ctx.tag("ctl:model-and-case-bookkeeping-differ")
+                    m_out[-1]["bookkeeping"] = mq["stages"]
+                    i_out[-1]["bookkeeping"] = ex["fr"]
+            ctx.compare("Controller.get_stage_status == Weights.queryStage (finished/current population) and "
+                        "CheckStatus total == Weights.totalOfStages, at every query of the history", case, m_out, i_out)
+    finally:
+        shutil.rmtree(tmp, ignore_errors=True)
+
+
+# a DoWhile stage that is asked for its progress before and after each of two extra iterations
+CTL_CORPUS = [
+    {"kind": "ctl:corpus:dowhile-two-extra-iterations", "start": 0,
+     "spec": [{"u": 250000000}, {"u": 750000000}],
+     "stages": [{"static": 1, "loop": 0}, {"static": 0, "loop": 1}],
+     "ops": [["q"], ["done", "stage0.s0"], ["fc", "stage0.s0", None], ["q"], ["next"], ["q"],
+             ["done", "stage1.0#l0"], ["q"], ["fc", "stage1.0#l0", "True"], ["q"],
+             ["done", "stage1.1#l0"], ["fc", "stage1.1#l0", "True"], ["q"],
+             ["done", "stage1.2#l0"], ["fc", "stage1.2#l0", "False"], ["q"]]},
+    {"kind": "ctl:corpus:restart-at-loop-stage", "start": 1,
+     "spec": [{"u": 100000000}, {"u": 600000000}, {"u": 300000000}],
+     "stages": [{"static": 2, "loop": 0}, {"static": 1, "loop": 2}, {"static": 1, "loop": 0}],
+     "ops": [["q"], ["done", "stage1.0#l0"], ["fc", "stage1.0#l0", "True"], ["q"], ["adv", 1], ["q"],
+             ["done", "stage2.s0"], ["q"], ["done", "stage1.s0"], ["done", "stage1.0#l1"], ["q"]]},
+]
+
+
+_REPORTED = {}
+
+
+def report(ctx, what, case, detail=None):
+    """ctx.fail, at most 12 times per slug (the list of failures kept by the framework is bounded: a defect that breaks
+    hundreds of loader cases must not crowd out a different failure of the monitor / controller part)"""
+    _REPORTED[what] = _REPORTED.get(what, 0) + 1
+    if _REPORTED[what] <= 12:
+        ctx.fail(what, case, detail)
+    else:
+        ctx.tag("further-failures-not-listed:" + what)
+
+
+def missing_tags(spec):
+    us = units_of(spec)
+    tags = []
+    miss = [e for e in spec if e.get("missing")]
+    if miss and len(miss) < len(spec) and us is not None and all(u >= 0 for u in us) and sum(us) == UNIT:
+        tags.append("given-weights-sum-to-one-with-missing-stages")
+        for e in miss:
+            tags.append("missing-stage:" + (("entry-with-" + e["entry"]) if e.get("entry") else "no-entry"))
+    return tags
+
+
 def check_loader_cases(ctx, cases):
     reqs = []
     for kind, spec in cases:
-        us = units_of(spec)
-        if us is None:
+        gs = given_of(spec)
+        if gs is None:
             reqs.append({"op": "fallback", "n": len(spec)})
         else:
-            reqs.append({"op": "normalize", "ws": us})
+            reqs.append({"op": "load", "gs": gs})
     mouts = ctx.model(reqs)
     for idx, (kind, spec) in enumerate(cases):
         out = impl_loader(spec)
@@ -455,16 +963,17 @@ def check_loader_cases(ctx, cases):
         nontrivial = len(spec) >= 2 and (us is None or any(u != 0 for u in us))
         ctx.case({"kind": kind, "spec": spec}, nontrivial=nontrivial,
                  tags=["kind:" + kind, "n>1000" if len(spec) > 1000 else "n<=1000",
-                       "impl:" + ("error:" + out["error"] if "error" in out else "ok")])
+                       "impl:" + ("error:" + out["error"] if "error" in out else "ok")] + missing_tags(spec))
         why = oracle_weights(spec, out)
         if why:
-            ctx.fail(why, {"kind": kind, "spec": spec}, out)
+            report(ctx, why, {"kind": kind, "spec": spec}, out)
         if mouts is not None:
             m = mouts[idx]
             ctx.tag("model:kept" if m.get("kept") else "model:fallback")
             ctx.compare("loader weights == Weights.normalize", {"kind": kind, "spec": spec},
                         {"weights": m["weights"]},
-                        {"weights": out.get("weights")} if "error" not in out else {"error": out["error"]})
+                        {"weights": out["weights"]} if "weights" in out else
+                        {k: v for k, v in out.items() if k in ("error", "no_weight_for_stages")})
 
 
 def check_monitor_cases(ctx, cases):
@@ -474,52 +983,57 @@ def check_monitor_cases(ctx, cases):
         for kind, spec, scenarios in cases:
             out = impl_monitor(spec, scenarios, tmp)
             case = {"kind": kind, "spec": spec, "scenarios": scenarios}
-            ctx.case(case, nontrivial=len(spec) >= 2, tags=["monitor:" + kind])
+            ctx.case(case, nontrivial=len(spec) >= 2, tags=["monitor:" + kind] + ["monitor:" + t for t in missing_tags(spec)])
             if out.get("error") == "ExperimentInvalidConfigurationError":
                 ctx.tag("monitor:package-rejected-as-invalid")  # proper rejection at load, nothing to report on
                 continue
             if "error" in out:
-                ctx.fail("monitor-raises-" + out["error"], case, out)
+                report(ctx, "monitor-raises-" + out["error"], case, out)
                 continue
             lo_ = impl_loader(spec)
             slim = {"stageWeights": out["stageWeights"], "floats": out["floats"]}
             why = oracle_weights(spec, {"floats": out["floats"], "weights": out["stageWeights"]})
             if why:
-                ctx.fail("monitor:" + why, dict(case, scenarios=[]), slim)
-            if "error" not in lo_ and lo_["weights"] != out["stageWeights"]:
+                report(ctx, "monitor:" + why, dict(case, scenarios=[]), slim)
+            if "weights" in lo_ and lo_["weights"] != out["stageWeights"]:
                 # position by position: stageWeights[i] must be the loaded weight of stage i
                 bad = [i for i, (a, b) in enumerate(zip(lo_["weights"], out["stageWeights"])) if a != b]
-                ctx.fail("monitor-weights-differ-from-loaded-weights", dict(case, scenarios=[]),
+                report(ctx, "monitor-weights-differ-from-loaded-weights", dict(case, scenarios=[]),
                          {"positions": bad[:20], "loader": lo_["weights"], "monitor": out["stageWeights"]})
             for sc, total, rn in zip(scenarios, out["totals"], out["runs"]):
                 case1 = dict(case, scenarios=[sc])   # every check is independent of the earlier ones
                 if "error" in rn:
-                    ctx.fail("status-check-raises-" + rn["error"].split(":")[0], case1, {"scenario": sc, "error": rn["error"]})
+                    report(ctx, "status-check-raises-" + rn["error"].split(":")[0], case1, {"scenario": sc, "error": rn["error"]})
                     continue
                 for f in set(rn["fired"]):
                     ctx.tag("controller-change:" + f)
                 ctx.tag("controller-changes-during-check:%d" % min(len(rn["fired"]), 3))
                 if not (-1e-12 <= total <= 1.0 + 1e-6 + 1e-9):
-                    ctx.fail("total-progress-outside-unit-interval", case1, {"scenario": sc, "total": total})
+                    report(ctx, "total-progress-outside-unit-interval", case1, {"scenario": sc, "total": total})
                 snaps = snapshot_totals(rn, out["floats"], sc["scale"])
                 lo, hi = min(snaps), max(snaps)
                 eps = Fraction(1, 10 ** 9)
                 if not (lo - eps <= Fraction(total) <= hi + eps):
                     # the total is a weighted sum of per-stage progress values that the stages never had together:
                     # below / above the weighted progress of every state the controller went through
-                    ctx.fail("total-progress-matches-no-controller-state", case1,
+                    report(ctx, "total-progress-matches-no-controller-state", case1,
                              {"scenario": sc, "total": total, "lowest_state_total": float(lo),
                               "highest_state_total": float(hi), "reads": rn["reads"]})
                 complete = all(p == sc["scale"] for p in rn["snapshots"][0])
                 if complete:
                     ctx.tag("scenario:complete")
                     if abs(total - 1.0) > 1e-6 + 1e-9:
-                        ctx.fail("total-progress-not-one-when-complete", case1, {"scenario": sc, "total": total})
-            if ctx.driver is not None and "error" not in lo_:
-                us = units_of(spec)
-                mw = ctx.model([{"op": "normalize", "ws": us}] if us is not None else [{"op": "fallback", "n": len(spec)}])[0]
-                mm = ctx.model([{"op": "monitor", "ws": mw["weights"]}])[0]
-                ctx.compare("StatusMonitor.stageWeights == Weights.monitorWeights (position by position)", case,
+                        report(ctx, "total-progress-not-one-when-complete", case1, {"scenario": sc, "total": total})
+            if ctx.driver is not None and "weights" in lo_:
+                gs = given_of(spec)
+                if gs is not None:
+                    # the loader's report (default weights stored) as StatusMonitor reads it
+                    mw = ctx.model([{"op": "load", "gs": gs}])[0]
+                    mm = {"kept": mw["monitor"] is not None, "weights": mw["monitor"] or []}
+                else:
+                    mw = ctx.model([{"op": "fallback", "n": len(spec)}])[0]
+                    mm = ctx.model([{"op": "monitor", "ws": mw["weights"]}])[0]
+                ctx.compare("StatusMonitor.stageWeights == Weights.monitorFromReport(loadReport) (position by position)", case,
                             {"kept": True, "weights": mm["weights"]},
                             {"kept": mm["kept"], "weights": out["stageWeights"]})
                 pairs = []
@@ -594,17 +1108,41 @@ def run(ctx):
                 "controller: random unknown/in-transit/finished labelling of all stages (current stage included) and "
                 "0-4 state changes (a stage completes, a stage starts, progress grows, the current stage advances) "
                 "fired at chosen call points of the check (stage, stageState, comp_lock acquire/release, the two list "
-                "reads, the n-th get_stage_status); changes that fall due while comp_lock is held happen at its release.")
+                "reads, the n-th get_stage_status); changes that fall due while comp_lock is held happen at its release. "
+                "Missing stages: every assignment given / no entry / entry with other keys only to 2-4 stages (5 thorough) "
+                "and every given/missing assignment to 5-8 stages where the GIVEN weights sum to one (loader), the same for "
+                "2-4 stages plus random 5-13 stage ones with a real StatusMonitor. Controller histories: generated packages "
+                "of 1-4 stages (0-3 ordinary components and an optional DoWhile document of 1-3 components per stage, "
+                "given/missing/improper stage weights, optionally restarted at a later stage) loaded into a real "
+                "Experiment + real Controller (harness/detsim.py: fake engines, no threads) + real StatusMonitor, driven by "
+                "4-40 operations: a task exits and its component reaches FINISHED; the real finishedCheck is delivered "
+                "(the DoWhile condition file says True/False: the real _handle_condition_component_finished / "
+                "_instantiate_next_dowhile_iteration add the next iteration to the stage); the next iteration is "
+                "instantiated directly; the stage loop moves on (Controller.initialise); query = the real "
+                "Controller.get_stage_status of every stage + one real CheckStatus (real get_stages_in_transit / "
+                "get_stages_finished) -> total progress; queries before and after every growth of a stage; "
+                "non-trivial = the population of a stage grows at least once and there are >= 2 queries.")
     ctx.assumptions = ["CPython float addition error on the generated sums (< 1e-12) is below one model unit (1e-9); "
                        "generated sums are kept >= 2 units away from the 1e-6 tolerance boundary",
-                       "scripted controller supplies stage progress values; _getProgress (external status script) not run",
+                       "scripted-controller part: a scripted controller supplies stage progress values; Controller-history "
+                       "part: the real Controller computes them, component tasks are fake engines (harness/detsim.py) whose "
+                       "exits the harness decides, one thread; _getProgress (external status script) not run in either part",
                        "controller states obey the invariants of control.Controller: a stage is in at most one of the "
                        "in-transit/finished lists, an unknown stage has no progress, a finished stage has progress 1, "
                        "progress never decreases; comp_lock excludes state changes while held"]
     ctx.trusted.append("C20: weights abstracted to integer units of 1e-9; float rounding trusted as stated in assumptions")
+    _REPORTED.clear()
+    from harness import detsim
+    detsim.install()          # before experiment.runtime is imported: fake engines, no threads (real Controller part)
     rng = ctx.rng
     quick = ctx.tier == "quick"
     cases = list(CORPUS)
+    # every given/missing assignment (missing = no entry | entry with other keys only) where the given weights sum to one
+    flav = ["", "empty", "args", "refs"]
+    for n in ((2, 3, 4) if quick else (2, 3, 4, 5)):
+        cases += missing_combinations(rng, n, flav if n <= 4 else ["", "args+refs"])
+    for n in ((5, 6, 7, 8) if quick else (6, 7, 8, 9, 10)):
+        cases += [c for c in missing_combinations(rng, n, [""])][:: (1 if n <= 6 else 5)]
     ns = list(range(1, 65)) if quick else list(range(1, 130)) + [250, 333, 500, 999, 1000, 1001, 1199, 1200]
     reps = 12 if quick else 40
     for n in ns:
@@ -624,13 +1162,29 @@ def run(ctx):
     for kind, spec in mspecs:
         n = len(spec)
         mcases.append((kind, spec, [gen_scenario(rng, n) for _ in range(4 if n <= 100 else 2)]))
+    # given weights sum to one, other stages give none: every assignment up to 3 stages (each flavour of "missing"),
+    # every given/missing assignment for 4 (and 5 thorough) stages, random ones beyond
+    mmiss = []
+    for n in (2, 3):
+        mmiss += missing_combinations(rng, n, ["", "empty", "args"] if quick else flav)
+    for n in ((4,) if quick else (4, 5)):
+        mmiss += missing_combinations(rng, n, [rng.choice(flav)])
+    mmiss += [gen_spec(rng, rng.randint(5, 13), kinds=["proper_missing"]) for _ in range(6 if quick else 40)]
+    for kind, spec in mmiss:
+        mcases.append((kind, spec, [gen_scenario(rng, len(spec)) for _ in range(2)]))
     mcases += MONITOR_SCENARIO_CORPUS
     check_monitor_cases(ctx, mcases)
+    ccases = list(CTL_CORPUS) + [gen_ctl_case(rng) for _ in range(60 if quick else 500)]
+    check_ctl_cases(ctx, ccases)
 
 
 def replay(ctx, doc):
+    from harness import detsim
+    detsim.install()
     case = doc.get("input") or doc["no_longer_checks"][-1]["input"]
-    if "scenarios" in case:
+    if "ops" in case and "stages" in case:
+        check_ctl_cases(ctx, [case])
+    elif "scenarios" in case:
         check_monitor_cases(ctx, [(case["kind"], case["spec"], case["scenarios"])])
     else:
         check_loader_cases(ctx, [(case["kind"], case["spec"])])
